@@ -99,6 +99,10 @@ instance : DecidableEq JVal := fun a b =>
 
 instance : BEq JVal := ⟨beq⟩
 
+instance : LawfulBEq JVal where
+  rfl := beq_refl _
+  eq_of_beq := eq_of_beq _ _
+
 end JVal
 
 instance {ε α : Type} [DecidableEq ε] [DecidableEq α] : DecidableEq (Except ε α) := fun a b =>
